@@ -21,10 +21,10 @@ def run(ctx):
     hist = {}
     g = docgen.Gen(rng, hist)
     docs = []
-    for _ in range(60000 if big else 5000):
+    for _ in range(250000 if big else 5000):
         t, tree = g.document()
         docs.append((t.encode(), dict(g.meta), "generated"))
-    for t, tree in docgen.header_order_documents(rng, 8000 if big else 1500):
+    for t, tree in docgen.header_order_documents(rng, 30000 if big else 1500):
         docs.append((t.encode(), {"ml": [], "comments": [], "adjacent": True, "respelled": False}, "header-order"))
     for n, d in corpus_files():
         if n.startswith("valid"):
